@@ -86,6 +86,19 @@ def extend(cases, every=4):
             a2 = transform(rid, args, k, c)
         except Exception:
             a2 = None
-        if a2 is not None:
+        if a2 is not None and _exact(a2):
             out.append((rid, a2))
     return out
+
+
+def _exact(v):
+    """every number of the transformed case is a binary64 number (a value that is one ulp beside a grid point does
+    not survive a shift by 2^20: such a copy would no longer be the exact image of the exact input)"""
+    if isinstance(v, (list, tuple)):
+        return all(_exact(x) for x in v)
+    if isinstance(v, Fr):
+        try:
+            return Fr(float(v)) == v
+        except OverflowError:
+            return False
+    return True
